@@ -65,6 +65,8 @@ def run(chk):
     logorder.run(chk)
     from lib import emitreport
     emitreport.run(chk)
+    from lib import sectionend
+    sectionend.run_identity(chk)
     return chk.finish(
         level="other",
         explanation=("Guard and atomicity rules over the emit paths of /repo's current source: label ids are validated on the "
